@@ -423,6 +423,8 @@ type FuncSpec struct {
 	Pure      bool
 	Inline    bool
 	Trusted   bool // contract assumed, body not verified (only for listed reasons)
+	MayPanic  bool     // calls may panic (they run code outside the contracts): a panic point for recovering callers
+	Recovers  []Clause // what holds of the named results whenever a panic is recovered
 	Logged    bool // calls are recorded in the ghost event log (events/evis/evarg/evres)
 	Residual  bool // interface-method contract used only for dynamic types outside the module
 	Params    []ParamDecl
@@ -516,7 +518,7 @@ func newContractSet() *ContractSet {
 var clauseKeywords = map[string]bool{
 	"requires": true, "ensures": true, "modifies": true, "loop": true, "invariant": true,
 	"decreases": true, "func": true, "extern": true, "spec": true, "lemma": true, "pure": true,
-	"inline": true, "panics": true, "trusted": true, "induction": true, "use": true, "def": true, "call": true, "apply": true, "apply_head": true, "apply_exit": true, "opaque": true, "embedded": true, "guarded": true, "callback": true, "monitor": true, "check_at_store": true, "assume_invariant": true, "residual": true, "logged": true,
+	"inline": true, "panics": true, "trusted": true, "induction": true, "use": true, "def": true, "call": true, "apply": true, "apply_head": true, "apply_exit": true, "opaque": true, "embedded": true, "guarded": true, "callback": true, "monitor": true, "check_at_store": true, "assume_invariant": true, "residual": true, "logged": true, "may_panic": true, "recovers": true,
 }
 
 // parseContractText parses the body of one or more /*@ ... @*/ blocks (already
@@ -815,6 +817,20 @@ func (cs *ContractSet) parseContractText(text, pkgPath, file string) error {
 			if curF != nil {
 				curF.Logged = true
 			}
+		case "may_panic":
+			if curF != nil {
+				curF.MayPanic = true
+			}
+		case "recovers":
+			if curF == nil {
+				return fmt.Errorf("%s: recovers outside a function contract", file)
+			}
+			label, src := splitLabel(rest)
+			e, err := parseExpr(src)
+			if err != nil {
+				return fmt.Errorf("%s: recovers: %v", file, err)
+			}
+			curF.Recovers = append(curF.Recovers, Clause{Label: label, Src: src, E: e})
 		case "panics":
 			if curF != nil {
 				curF.Panics = strings.TrimSpace(rest)
